@@ -1,6 +1,35 @@
 // statements and control flow (included into tr.rs)
 
 /// free variables of a loop body that are assigned in it (in order of first assignment)
+/// (root variable of the receiver, method name) of every method call in the statements
+fn method_receivers(stmts: &[syn::Stmt]) -> Vec<(String, String)> {
+    struct V(Vec<(String, String)>);
+    fn root(e: &syn::Expr) -> Option<String> {
+        match e {
+            syn::Expr::Path(p) if p.path.segments.len() == 1 => Some(p.path.segments[0].ident.to_string()),
+            syn::Expr::Index(i) => root(&i.expr),
+            syn::Expr::Field(f) => root(&f.base),
+            syn::Expr::Unary(u) if matches!(u.op, syn::UnOp::Deref(_)) => root(&u.expr),
+            syn::Expr::Paren(p) => root(&p.expr),
+            syn::Expr::Reference(r) => root(&r.expr),
+            _ => None,
+        }
+    }
+    impl<'ast> syn::visit::Visit<'ast> for V {
+        fn visit_expr_method_call(&mut self, m: &'ast syn::ExprMethodCall) {
+            if let Some(r) = root(&m.receiver) {
+                self.0.push((r, m.method.to_string()));
+            }
+            syn::visit::visit_expr_method_call(self, m);
+        }
+    }
+    let mut v = V(vec![]);
+    for s in stmts {
+        syn::visit::Visit::visit_stmt(&mut v, s);
+    }
+    v.0
+}
+
 fn assigned_vars(stmts: &[syn::Stmt]) -> Vec<String> {
     struct V(Vec<String>);
     impl V {
@@ -143,6 +172,80 @@ fn has_far_break(stmts: &[syn::Stmt], own: Option<&str>) -> bool {
         syn::visit::Visit::visit_stmt(&mut v, s);
     }
     v.1
+}
+
+/// a `break`/`continue`/`return`/`?` that would leave the loop whose body this is (nested loops keep their own)
+fn escapes_own_loop(stmts: &[syn::Stmt]) -> bool {
+    struct V(bool);
+    impl<'ast> syn::visit::Visit<'ast> for V {
+        fn visit_expr_break(&mut self, _b: &'ast syn::ExprBreak) {
+            self.0 = true;
+        }
+        fn visit_expr_continue(&mut self, _b: &'ast syn::ExprContinue) {
+            self.0 = true;
+        }
+        fn visit_expr_return(&mut self, _b: &'ast syn::ExprReturn) {
+            self.0 = true;
+        }
+        fn visit_expr_try(&mut self, _b: &'ast syn::ExprTry) {
+            self.0 = true;
+        }
+        fn visit_expr_for_loop(&mut self, l: &'ast syn::ExprForLoop) {
+            // unlabeled break/continue inside belong to the nested loop; labeled ones and returns do not
+            struct W(bool);
+            impl<'a> syn::visit::Visit<'a> for W {
+                fn visit_expr_break(&mut self, b: &'a syn::ExprBreak) {
+                    if b.label.is_some() {
+                        self.0 = true;
+                    }
+                }
+                fn visit_expr_continue(&mut self, b: &'a syn::ExprContinue) {
+                    if b.label.is_some() {
+                        self.0 = true;
+                    }
+                }
+                fn visit_expr_return(&mut self, _b: &'a syn::ExprReturn) {
+                    self.0 = true;
+                }
+                fn visit_expr_try(&mut self, _b: &'a syn::ExprTry) {
+                    self.0 = true;
+                }
+                fn visit_expr_closure(&mut self, _c: &'a syn::ExprClosure) {}
+            }
+            let mut w = W(false);
+            syn::visit::Visit::visit_block(&mut w, &l.body);
+            if w.0 {
+                self.0 = true;
+            }
+        }
+        fn visit_expr_while(&mut self, _l: &'ast syn::ExprWhile) {
+            self.0 = true; // not needed so far
+        }
+        fn visit_expr_loop(&mut self, _l: &'ast syn::ExprLoop) {
+            self.0 = true;
+        }
+        fn visit_expr_closure(&mut self, _c: &'ast syn::ExprClosure) {}
+    }
+    let mut v = V(false);
+    for s in stmts {
+        syn::visit::Visit::visit_stmt(&mut v, s);
+    }
+    v.0
+}
+
+fn contains_try(stmts: &[syn::Stmt]) -> bool {
+    struct V(bool);
+    impl<'ast> syn::visit::Visit<'ast> for V {
+        fn visit_expr_try(&mut self, _t: &'ast syn::ExprTry) {
+            self.0 = true;
+        }
+        fn visit_expr_closure(&mut self, _c: &'ast syn::ExprClosure) {}
+    }
+    let mut v = V(false);
+    for s in stmts {
+        syn::visit::Visit::visit_stmt(&mut v, s);
+    }
+    v.0
 }
 
 fn has_value_return(stmts: &[syn::Stmt]) -> bool {
@@ -293,6 +396,14 @@ impl<'g> FnCx<'g> {
                             return unsupported("let-else", l.span());
                         }
                         let e = &*init.expr;
+                        // `let f = || expr;` (no captures that change afterwards are checked for: the body may only
+                        // mention variables, which are immutable values here) - expanded at `ok_or_else(f)`
+                        if let (syn::Expr::Closure(cl), syn::Pat::Ident(pi)) = (strip_paren(e), pat) {
+                            if cl.inputs.is_empty() {
+                                self.thunks.insert(pi.ident.to_string(), (*cl.body).clone());
+                                return self.stmts(rest, k);
+                            }
+                        }
                         // `let x: &mut T = &mut y;` is another name for y
                         if let (syn::Expr::Reference(r), syn::Pat::Ident(pi)) = (strip_paren(e), pat) {
                             if r.mutability.is_some() {
@@ -711,6 +822,7 @@ impl<'g> FnCx<'g> {
     fn if_let_k(&mut self, l: &syn::ExprLet, then_b: &syn::Block, else_e: Option<&syn::Expr>, expect: Option<&Ty>, k: K) -> R<String> {
         let scrut = self.expr(&l.expr, None)?;
         let sty = self.u.resolve(&scrut.ty);
+        self.reject_run_result(&scrut, &sty, l.span())?;
         let snap0 = self.scopes.clone();
         self.scopes.push(HashMap::new());
         let pat = self.pattern(&l.pat, &sty)?;
@@ -731,6 +843,7 @@ impl<'g> FnCx<'g> {
     fn match_k(&mut self, m: &syn::ExprMatch, expect: Option<&Ty>, k: K) -> R<String> {
         let scrut = self.expr(&m.expr, None)?;
         let sty = self.u.resolve(&scrut.ty);
+        self.reject_run_result(&scrut, &sty, m.span())?;
         let mut arms = String::new();
         // integer scrutinee with literal / range patterns: an if-chain (Lean has no range patterns)
         if sty.is_int() || sty == Ty::Char {
@@ -841,6 +954,28 @@ impl<'g> FnCx<'g> {
     /// a `for` loop: an auxiliary structurally recursive function over the iterated list
     fn for_loop(&mut self, f: &syn::ExprForLoop, k: K) -> R<String> {
         let label = f.label.as_ref().map(|l| l.name.ident.to_string());
+        // `for x in place.iter_mut() { … *x = … }`: rebuilt as a loop over the old elements that pushes the (possibly
+        // replaced) element to a new vector, which is assigned back to the place afterwards
+        if let syn::Expr::MethodCall(mc) = strip_paren(&f.expr) {
+            if mc.method == "iter_mut" && mc.args.is_empty() {
+                let x = match &*f.pat {
+                    syn::Pat::Ident(pi) if pi.subpat.is_none() => pi.ident.to_string(),
+                    _ => return unsupported("iter_mut loop with a non-identifier pattern", f.span()),
+                };
+                if label.is_some() || escapes_own_loop(&f.body.stmts) {
+                    return unsupported("iter_mut loop that leaves early", f.span());
+                }
+                use quote::ToTokens;
+                let recv = mc.receiver.to_token_stream().to_string();
+                let body: String = f.body.stmts.iter().map(|s| s.to_token_stream().to_string()).collect::<Vec<_>>().join("\n");
+                let text = format!(
+                    "{{ let mut out__ = Vec::new(); for {x} in ({recv}).iter() {{ let mut {x} = {x}.clone(); {body} out__.push({x}); }} {recv} = out__; }}",
+                    x = x, recv = recv, body = body
+                );
+                let blk: syn::Block = syn::parse_str(&text).map_err(|e| format!("internal: iter_mut desugaring: {}", e))?;
+                return self.block(&blk.stmts, &|cx, _| k(cx, None));
+            }
+        }
         let iter = self.iter_expr(&f.expr)?; // a list-valued Val
         let elem_ty = match self.u.resolve(&iter.ty) {
             Ty::List(t) => *t,
@@ -858,11 +993,21 @@ impl<'g> FnCx<'g> {
     fn loop_common(&mut self, iter: Option<(&syn::Pat, Ty, Val)>, cond: Option<&syn::Expr>, body: &[syn::Stmt], label: Option<String>, k: K) -> R<String> {
         self.loops += 1;
         let loop_name = format!("{}.loop{}", self.lean_name, self.loops);
-        let assigned: Vec<String> = assigned_vars(body).into_iter().filter(|n| self.lookup(n).is_some()).collect();
+        let mut assigned: Vec<String> = assigned_vars(body).into_iter().filter(|n| self.lookup(n).is_some()).collect();
+        // receivers of translated `&mut self` methods are mutated too (by method name: an over-approximation only
+        // threads more state through the loop)
+        for (root, method) in method_receivers(body) {
+            let mutating = self.g.fns.iter().any(|(k, sig)| k.ends_with(&format!("::{}", method)) && sig.params.first().map(|p| p.name == "self" && p.mut_ref).unwrap_or(false));
+            if mutating && self.lookup(&root).is_some() && !assigned.contains(&root) {
+                assigned.push(root);
+            }
+        }
         let mentioned: Vec<String> = mentioned_vars(body, cond).into_iter().filter(|n| self.lookup(n).is_some()).collect();
         // the &mut parameters must be threaded through when the body can return from the function
         let has_far = has_far_break(body, label.as_deref());
-        let has_value_ret = has_value_return(body);
+        // in a function returning `Option`, `?` returns `None` from inside the loop: a value return
+        let ret_is_opt = matches!(self.u.resolve(&self.ret.clone()), Ty::Opt(_));
+        let has_value_ret = has_value_return(body) || (ret_is_opt && contains_try(body));
         let has_ret = has_value_ret || has_far;
         let mut state: Vec<String> = assigned.clone();
         if has_ret {
